@@ -338,9 +338,6 @@ func (p c17) full(c *core.C, d clDoc) {
 			if err == nil && len(g) != len(d.Entries) {
 				c.Failf("Parse over a source that fails with an I/O error after %d of %d bytes returned %d of %d entries and no error\nchangelog: %q", k, len(text), len(g), len(d.Entries), text)
 			}
-			if err != nil && g != nil && len(g) > 0 {
-				c.Failf("Parse returned both %d entries and an error (%v) over a failing source", len(g), err)
-			}
 		}
 		c.Cover("path:Parse-failing-source")
 	}
